@@ -887,12 +887,12 @@ Qed.
    read from /repo (Gen.C16.spill_cond_src) and must be one of the two the model
    knows — any other text breaks this tie and with it the check.
      plain  : i < uint(len(m.segments)) && deficit > 0
-     rescan : deficit > 0 && (i < n || (deficit == 2 && capacity > 0))     (props/C16/fix.patch) *)
+     rescan : deficit > 0 && (i < n || (deficit == 2 && capacity > 0))     (/repo since 47c8f66) *)
 Lemma gen_spill_cond_known :
   (spill_cond_src = [spill_cond_plain] /\ go_rescan = false) \/ (spill_cond_src = [spill_cond_rescan] /\ go_rescan = true).
 Proof. vm_compute. first [left; split; reflexivity | right; split; reflexivity]. Qed.
 
-Definition c_run := run go_mix go_sidx go_eoff false.          (* the plain loop *)
+Definition c_run := run go_mix go_sidx go_eoff false.          (* the loop before 47c8f66 *)
 Definition c_run_src := run go_mix go_sidx go_eoff go_rescan.  (* the loop the source has *)
 Definition c_run_rescan := run go_mix go_sidx go_eoff true.    (* the repaired loop *)
 Definition only_swc_cap (cap : Z) (progs : list (list call)) : Prop :=
